@@ -35,6 +35,60 @@ let int_of_hex s = int_of_string ("0x" ^ s)
 let int_of_shex s =
   if String.length s > 0 && s.[0] = '-' then - (int_of_hex (String.sub s 1 (String.length s - 1))) else int_of_hex s
 
+(* One harness op becomes one model op, except the multi-byte guest accesses
+     W,<i>,<off>,<len>,<seed>   store of len bytes at ptr_i+off, byte j = (seed + 31*j) land 255
+     R,<i>,<off>,<len>          load of len bytes
+   which are the sequences of their single-byte stores / loads (linear memory is byte-addressed;
+   each byte is performed iff its address lies inside the requested size of a live allocation).
+   Observed: W -> one letter per byte, k (stored) or s (skipped); R -> two hex digits per byte,
+   -- for a skipped one.  Returns the expanded ops, their observations, and for each expanded
+   index the index of the harness op it comes from. *)
+let expand tag optoks obtoks =
+  let n = List.length optoks in
+  let ptrs = Array.make (n + 1) 0 in
+  let split_ob tok = match String.split_on_char ',' tok with
+    | [r; pg] -> (r, n_of_hex pg) | _ -> fail "C28: bad observation %s" tok in
+  let out = ref [] in
+  List.iteri (fun i (tok, obtok) ->
+    let (r, pg) = split_ob obtok in
+    let base j = if j < i then ptrs.(j) else 0 in
+    let one o = out := (i, o, { o_res = parse_res r; o_pages = pg }) :: !out in
+    match String.split_on_char ',' tok with
+    | ["a"; sz] -> tag "alloc";
+      (match parse_res r with RPtr p -> ptrs.(i) <- int_of_n p | _ -> ());
+      one (OAlloc (n_of_hex sz))
+    | ["f"; j; d] ->
+      let d = int_of_shex d in
+      tag (if d = 0 then "free" else if d land 7 <> 0 then "free-unaligned" else "free-offset");
+      one (OFree (n_of_int ((base (int_of_hex j) + d) land mask32)))
+    | ["F"; p] -> tag "free-raw"; one (OFree (n_of_hex p))
+    | ["w"; j; off; v] -> tag "store"; one (OWrite (n_of_int ((base (int_of_hex j) + int_of_hex off) land mask32), n_of_hex v))
+    | ["r"; j; off] -> tag "load"; one (ORead (n_of_int ((base (int_of_hex j) + int_of_hex off) land mask32)))
+    | ["g"; k] -> tag "grow"; one (OGrow (n_of_hex k))
+    | ["S"; k] -> tag "setpages"; one (OSetPages (n_of_hex k))
+    | ["W"; j; off; len; seed] ->
+      tag "store-multibyte";
+      let len = int_of_hex len and seed = int_of_hex seed in
+      if String.length r <> len then fail "C28: bad multi-byte store observation %s" obtok;
+      let a0 = base (int_of_hex j) + int_of_hex off in
+      for b = 0 to len - 1 do
+        let res = (match r.[b] with 'k' -> ROk | 's' -> RSkip | _ -> fail "C28: bad multi-byte store observation %s" obtok) in
+        out := (i, OWrite (n_of_int ((a0 + b) land mask32), n_of_int ((seed + 31 * b) land 255)), { o_res = res; o_pages = pg }) :: !out
+      done
+    | ["R"; j; off; len] ->
+      tag "load-multibyte";
+      let len = int_of_hex len in
+      if String.length r <> 2 * len then fail "C28: bad multi-byte load observation %s" obtok;
+      let a0 = base (int_of_hex j) + int_of_hex off in
+      for b = 0 to len - 1 do
+        let h = String.sub r (2 * b) 2 in
+        let res = if h = "--" then RSkip else RVal (n_of_hex h) in
+        out := (i, ORead (n_of_int ((a0 + b) land mask32)), { o_res = res; o_pages = pg }) :: !out
+      done
+    | _ -> fail "C28: bad op %s" tok) (List.combine optoks obtoks);
+  let l = List.rev !out in
+  (List.map (fun (_, o, _) -> o) l, List.map (fun (_, _, ob) -> ob) l, Array.of_list (List.map (fun (i, _, _) -> i) l))
+
 let check inp obs =
   match split_ws inp with
   | "seq" :: hb :: pages :: max :: optoks ->
@@ -45,25 +99,10 @@ let check inp obs =
       { prop_ok = false; model_eq = false; nontrivial = true; finding = "-"; tags = "abnormal-" ^ obs;
         detail = "implementation did not return (" ^ obs ^ ")" }
     else begin
-      let obsl = List.map parse_obs obtoks in
-      let ptrs = Array.make (n + 1) 0 in
       let tags = Hashtbl.create 16 in
       let tag t = Hashtbl.replace tags t () in
-      let ops = List.mapi (fun i (tok, ob) ->
-        (match ob.o_res with RPtr p -> ptrs.(i) <- int_of_n p | _ -> ());
-        let base j = if j < i then ptrs.(j) else 0 in
-        match String.split_on_char ',' tok with
-        | ["a"; s] -> tag "alloc"; OAlloc (n_of_hex s)
-        | ["f"; j; d] ->
-          let d = int_of_shex d in
-          tag (if d = 0 then "free" else if d land 7 <> 0 then "free-unaligned" else "free-offset");
-          OFree (n_of_int ((base (int_of_hex j) + d) land mask32))
-        | ["F"; p] -> tag "free-raw"; OFree (n_of_hex p)
-        | ["w"; j; off; v] -> tag "store"; OWrite (n_of_int ((base (int_of_hex j) + int_of_hex off) land mask32), n_of_hex v)
-        | ["r"; j; off] -> tag "load"; ORead (n_of_int ((base (int_of_hex j) + int_of_hex off) land mask32))
-        | ["g"; k] -> tag "grow"; OGrow (n_of_hex k)
-        | ["S"; k] -> tag "setpages"; OSetPages (n_of_hex k)
-        | _ -> fail "C28: bad op %s" tok) (List.combine optoks obsl) in
+      let (ops, obsl, origin) = expand tag optoks obtoks in
+      let otok i = List.nth optoks origin.(i) and btok i = List.nth obtoks origin.(i) in
       let impl = List.combine ops obsl in
       (* the property on the implementation's observables; locate the first failing step *)
       let hba = align_up c.c_hb in
@@ -112,17 +151,17 @@ let check inp obs =
         if prop && eq then "" else begin
           let b = Buffer.create 100 in
           (match bad with Some (i, _) ->
-             Buffer.add_string b (Printf.sprintf "property fails at op %d (%s -> %s); " i (List.nth optoks i) (List.nth obtoks i))
+             Buffer.add_string b (Printf.sprintf "property fails at op %d (%s -> %s); " origin.(i) (otok i) (btok i))
            | None -> ());
           (match bad_u with Some i ->
-             Buffer.add_string b (Printf.sprintf "unconditional part (poisoning / 32 MiB / 4 GiB) fails at op %d (%s -> %s); " i (List.nth optoks i) (List.nth obtoks i))
+             Buffer.add_string b (Printf.sprintf "unconditional part (poisoning / 32 MiB / 4 GiB) fails at op %d (%s -> %s); " origin.(i) (otok i) (btok i))
            | None -> ());
           if not eq then begin
             let rec firstdiff i a b' = match a, b' with
               | x :: a', y :: b'' -> if x = y then firstdiff (i + 1) a' b'' else Some (i, x, y)
               | _ -> None in
             (match firstdiff 0 mobs obsl with
-             | Some (i, m, o) -> Buffer.add_string b (Printf.sprintf "model differs at op %d (%s): model=%s impl=%s" i (List.nth optoks i) (string_of_obs m) (string_of_obs o))
+             | Some (i, m, o) -> Buffer.add_string b (Printf.sprintf "model differs at op %d (%s): model=%s impl=%s" origin.(i) (otok i) (string_of_obs m) (string_of_obs o))
              | None -> ());
             (* does the implementation still behave like the pinned tree before the fixes? *)
             if List.map snd (run prefix c zero_mem ops) = obsl then Buffer.add_string b " [impl = pre-fix model]"
@@ -135,7 +174,8 @@ let check inp obs =
     end
   | ["cst"] ->
     let model = String.concat " " (List.map hex_of_n
-      [nil_marker; n_of_int 8; header_size; num_orders; min_alloc; max_alloc; page_size; max_wasm_pages]) in
+      [nil_marker; n_of_int 8; header_size; num_orders; min_alloc; max_alloc; page_size; max_wasm_pages;
+       encode_header (HOcc (n_of_int 1)); encode_header (HFree None)]) in
     { prop_ok = true; model_eq = (model = obs); nontrivial = false; finding = "-"; tags = "constants";
       detail = if model = obs then "" else "constants differ: Model.v has " ^ model ^ ", the Go package has " ^ obs }
   | _ -> fail "C28: bad input %s" inp
@@ -149,21 +189,12 @@ let coq inp obs =
     let n = List.length optoks in
     let obtoks = if obs = "-" then [] else split_ws obs in
     if List.length obtoks <> n || n = 0 || n > 80 then None else begin
-      let obsl = List.map parse_obs obtoks in
-      let ptrs = Array.make (n + 1) 0 in
-      let cn x = coq_n (n_of_int x) in
-      let ops = List.mapi (fun i (tok, ob) ->
-        (match ob.o_res with RPtr p -> ptrs.(i) <- int_of_n p | _ -> ());
-        let base j = if j < i then ptrs.(j) else 0 in
-        match String.split_on_char ',' tok with
-        | ["a"; s] -> "OAlloc " ^ coq_n (n_of_hex s)
-        | ["f"; j; d] -> "OFree " ^ cn ((base (int_of_hex j) + int_of_shex d) land mask32)
-        | ["F"; p] -> "OFree " ^ coq_n (n_of_hex p)
-        | ["w"; j; off; v] -> Printf.sprintf "OWrite %s %s" (cn ((base (int_of_hex j) + int_of_hex off) land mask32)) (coq_n (n_of_hex v))
-        | ["r"; j; off] -> "ORead " ^ cn ((base (int_of_hex j) + int_of_hex off) land mask32)
-        | ["g"; k] -> "OGrow " ^ coq_n (n_of_hex k)
-        | ["S"; k] -> "OSetPages " ^ coq_n (n_of_hex k)
-        | _ -> fail "C28: bad op %s" tok) (List.combine optoks obsl) in
+      let (mops, obsl, _) = expand (fun _ -> ()) optoks obtoks in
+      if List.length mops > 160 then None else
+      let ops = List.map (function
+        | OAlloc sz -> "OAlloc " ^ coq_n sz | OFree p -> "OFree " ^ coq_n p
+        | OWrite (a, v) -> Printf.sprintf "OWrite %s %s" (coq_n a) (coq_n v) | ORead a -> "ORead " ^ coq_n a
+        | OGrow k -> "OGrow " ^ coq_n k | OSetPages k -> "OSetPages " ^ coq_n k) mops in
       let coq_err e = (match e with
         | EPoisoned -> "EPoisoned" | EShrunk -> "EShrunk" | ETooLarge -> "ETooLarge" | EHdrPtr -> "EHdrPtr"
         | EReadHdr -> "EReadHdr" | EInvalidOrder -> "EInvalidOrder" | EOccInFree -> "EOccInFree" | EOOS -> "EOOS"
